@@ -133,6 +133,10 @@ func runC13(c *Ctx, tier string) {
 		func(_ *ssa.CallCommon, n string) bool { return n == "(*lake/commits.Store).Remove" },
 		map[string]string{"(*lake.Branch).commit": "lost-race path of the optimistic commit"}, nil, 1,
 		"commit objects are removed outside the lost-race path of Branch.commit: an acknowledged commit could vanish")
+	whoMayCall(c, "C13-W1", "data.DeleteVector",
+		func(_ *ssa.CallCommon, n string) bool { return n == "lake/data.DeleteVector" },
+		map[string]string{"lake/data.NewVectorWriter": "the abort closure of a vector writer: removes a vector file whose creation failed, before any commit refers to it"}, nil, 1,
+		"a vector file is deleted outside the abort of its own creation: the file is shared by every commit (and branch) whose snapshot has the vector, so deleting it when one branch drops the vector makes `pool@<older commit> | count() by s` fail with `file does not exist`")
 
 	// R1
 	resolvers := map[string]bool{
@@ -454,6 +458,7 @@ func runC14(c *Ctx, tier string) {
 	runFirstKeyByPosition(c, "C14-M1")
 	runDeleteSurvivorExact(c, "C14-P2")
 	runLoadWriterSingleFlight(c, "C14-W2")
+	runSeekIndexMaxMeaning(c, "C14-B2")
 }
 
 // stableSorts: the named functions sort with a stable algorithm.
@@ -819,6 +824,7 @@ func runC17(c *Ctx, tier string) {
 			c.Fail("C17-H1", "(*lake/journal.Queue).ReadHead", fn.Pos(), "ReadHead trusts the HEAD file and never probes for entry HEAD+1: after a crash between the entry write and the HEAD write every later commit gets os.IsExist on the same slot and gives up (ErrRetriesExceeded), so subsequent operations do not succeed")
 		}
 	}
+	runOneCommitPerRequest(c, "C17-A1")
 }
 
 func init() {
